@@ -386,3 +386,25 @@ def play(rng, case, probes=2, max_ops=160):
         if r != "ok":
             break
     return case
+
+
+def iter_ops(case):
+    rec = {"steps": []}
+    try:
+        g = new_game(case)
+    except Exception as e:
+        rec["ctor"] = {"err": type(e).__name__}
+        yield rec
+        return
+    rec["ctor"] = observe(g)
+    yield rec
+    for op in case["ops"]:
+        tgt = g
+        if op.get("probe"):
+            tgt = copy.deepcopy(g); tgt._cv_fake = copy.copy(g._cv_fake)
+        r, e = apply_op(tgt, op)
+        st = {"r": r}
+        if r == "ok":
+            st["s"] = observe(tgt)
+        rec["steps"].append(st)
+        yield rec
